@@ -208,7 +208,7 @@ impl Parser {
     //@  ensures @a_declaration_at_depth_zero_declares_no_local old(self).comp.scope_depth == 0 ==> final(self).comp == old(self).comp
     //@  ensures @a_global_is_named_by_the_declared_identifier old(self).comp.scope_depth == 0 && !final(self).had_error ==> final(self).names_constant(r as int, final(self).previous.source@)
     //@  ensures @a_declaration_in_a_block_adds_one_local_under_the_declared_name_not_yet_in_scope old(self).comp.scope_depth > 0 && !final(self).had_error ==> final(self).locals() == old(self).locals().push(final(self).locals().last()) && final(self).locals().last().name@ == final(self).previous.source@ && final(self).locals().last().depth is None && !final(self).locals().last().is_captured
-    //@  ensures final(self).locals().len() >= old(self).locals().len(), old(self).comp.scope_depth > 0 ==> final(self).locals() == old(self).locals() || final(self).locals().drop_last() == old(self).locals()
+    //@  ensures final(self).locals().len() >= old(self).locals().len(), final(self).locals().len() <= old(self).locals().len() + 1, forall|i: int| 0 <= i < old(self).locals().len() ==> #[trigger] final(self).locals()[i] == old(self).locals()[i]
     //@  ensures !final(self).had_error ==> final(self).previous == old(self).current && final(self).previous.kind == TokenKind::Identifier
     //@end
 
@@ -221,7 +221,7 @@ impl Parser {
     //@end
 
     // var NAME [= E];
-    //@fn file=yarel/src/compiler.rs path=Parser::var_declaration props=C06,C15,C04
+    //@fn file=yarel/src/compiler.rs path=Parser::var_declaration props=C06,C15,C04,C03
     //@  rewrite R21
     //@  requires old(self).locals().len() > 0
     //@  after_stmt "let#1" let ghost nm = self.previous.source@; let ghost depth = self.comp.scope_depth;
@@ -229,29 +229,33 @@ impl Parser {
     //@  assert @a_variable_without_initialiser_starts_as_nil after_stmt "self.emit_byte(" self.code() == old(self).code().push(opcode_byte(OpCode::Nil))
     //@  assert @a_block_variable_is_in_scope_after_its_declaration_under_the_declared_name after_stmt "self.define_variable(" depth > 0 && !self.had_error ==> self.locals().len() == old(self).locals().len() + 1 && same_shape(self.locals().drop_last(), old(self).locals()) && self.locals().last().name@ == nm && self.locals().last().depth == Some(depth)
     //@  assert @a_top_level_variable_defines_the_global_of_the_declared_name after_stmt "self.define_variable(" depth == 0 && !self.had_error ==> same_shape(self.locals(), old(self).locals()) && exists|i: int| #[trigger] self.ends_with_op(OpCode::DefineGlobal, i) && self.names_constant(i, nm)
+    //@  ensures @a_variable_declaration_leaves_no_local_undefined_whatever_errors_it_reported all_defined(old(self).locals()) ==> all_defined(final(self).locals())
     //@  ensures old(self).grows(final(self)), final(self).code().len() > old(self).code().len(), final(self).fns == old(self).fns, final(self).named == old(self).named
     //@end
 
     // fn NAME(params) { body }
-    //@fn file=yarel/src/compiler.rs path=Parser::fn_declaration props=C06,C15,C04
+    //@fn file=yarel/src/compiler.rs path=Parser::fn_declaration props=C06,C15,C04,C03
     //@  requires old(self).locals().len() > 0
     //@  after_stmt "let#1" let ghost nm = self.previous.source@; let ghost depth = self.comp.scope_depth;
     //@  assert @a_function_declared_in_a_block_is_in_scope_inside_its_own_body before_stmt "self.function(" depth > 0 && !self.had_error ==> self.locals().len() == old(self).locals().len() + 1 && self.locals().last().name@ == nm && self.locals().last().depth == Some(depth)
     //@  assert @a_top_level_function_defines_the_global_of_the_declared_name after_stmt "self.define_variable(" depth == 0 && !self.had_error ==> same_shape(self.locals(), old(self).locals()) && exists|i: int| #[trigger] self.ends_with_op(OpCode::DefineGlobal, i) && self.names_constant(i, nm)
+    //@  ensures @a_function_declaration_leaves_no_local_undefined_whatever_errors_it_reported all_defined(old(self).locals()) ==> all_defined(final(self).locals())
     //@  ensures @a_function_declaration_compiles_one_plain_function final(self).fns == old(self).fns.push(FunctionKind::Function)
     //@  ensures old(self).grows(final(self)), final(self).named == old(self).named
     //@end
 
     // (p1, p2, …
-    //@fn file=yarel/src/compiler.rs path=Parser::parameter_list props=C06,C07,C04
+    //@fn file=yarel/src/compiler.rs path=Parser::parameter_list props=C06,C04,C03
     //@  requires old(self).comp.scope_depth > 0, old(self).locals().len() > 0, old(self).comp.function.arity <= 256, old(self).comp.function.arity + old(self).toks_left < 0x7fff_ffff_ffff_ffff
     //@  ensures old(self).code() == final(self).code(), final(self).comp.scope_depth == old(self).comp.scope_depth, old(self).had_error ==> final(self).had_error, final(self).fns == old(self).fns, final(self).named == old(self).named
     //@  ensures @every_parameter_is_a_local_in_scope_and_counts_once !final(self).had_error ==> final(self).locals().len() - old(self).locals().len() == final(self).comp.function.arity - old(self).comp.function.arity && params_in_scope(final(self).locals(), old(self).locals().len() as int, old(self).comp.scope_depth) && final(self).locals().subrange(0, old(self).locals().len() as int) == old(self).locals()
+    //@  ensures @a_parameter_list_leaves_no_local_undefined_whatever_errors_it_reported all_defined(old(self).locals()) ==> all_defined(final(self).locals())
     //@  ensures @more_than_255_parameters_are_a_compile_error final(self).comp.function.arity > 256 ==> final(self).had_error
     //@  loop 0 invariant self.code() == old(self).code(), self.comp.scope_depth == old(self).comp.scope_depth, old(self).had_error ==> self.had_error, self.fns == old(self).fns, self.named == old(self).named, self.consts.len() >= old(self).consts.len(), self.toks_left <= old(self).toks_left
     //@  loop 0 invariant self.comp.function.arity >= old(self).comp.function.arity, self.locals().len() > 0, old(self).comp.scope_depth > 0, old(self).comp.function.arity + old(self).toks_left < 0x7fff_ffff_ffff_ffff
     //@  loop 0 invariant_except_break self.comp.function.arity + self.toks_left <= old(self).comp.function.arity + old(self).toks_left
     //@  loop 0 invariant self.comp.function.arity > 256 ==> self.had_error
+    //@  loop 0 invariant all_defined(old(self).locals()) ==> all_defined(self.locals())
     //@  loop 0 invariant !self.had_error ==> self.locals().len() - old(self).locals().len() == self.comp.function.arity - old(self).comp.function.arity && params_in_scope(self.locals(), old(self).locals().len() as int, old(self).comp.scope_depth) && self.locals().subrange(0, old(self).locals().len() as int) =~= old(self).locals()
     //@  loop 0 decreases self.toks_left
     //@end
@@ -284,14 +288,14 @@ impl Parser {
     //@end
 
     // true / false / nil
-    //@fn file=yarel/src/compiler.rs path=Parser::literal props=C19,C04
+    //@fn file=yarel/src/compiler.rs path=Parser::literal props=C05,C04
     //@  rewrite R21
     //@  ensures @a_literal_keyword_pushes_the_value_it_names (old(s).previous.kind == TokenKind::True ==> final(s).code() == old(s).code().push(opcode_byte(OpCode::True))) && (old(s).previous.kind == TokenKind::False ==> final(s).code() == old(s).code().push(opcode_byte(OpCode::False))) && (old(s).previous.kind == TokenKind::Nil ==> final(s).code() == old(s).code().push(opcode_byte(OpCode::Nil)))
     //@  ensures old(s).grows(final(s)), final(s).comp.locals == old(s).comp.locals
     //@end
 
     // "text"
-    //@fn file=yarel/src/compiler.rs path=Parser::string props=C13,C10,C04
+    //@fn file=yarel/src/compiler.rs path=Parser::string props=C13,C11,C04
     //@  rewrite R14
     //@  ensures @a_string_literal_denotes_the_scanned_text final(s).had_error || exists|i: int| #[trigger] final(s).ends_with_op(OpCode::Constant, i) && final(s).names_constant(i, old(s).previous.source@)
     //@  ensures old(s).grows(final(s)), final(s).comp.locals == old(s).comp.locals, final(s).code().len() == old(s).code().len() + 3
@@ -304,6 +308,10 @@ impl Parser {
     //@  ensures old(s).grows(final(s)), same_shape(old(s).locals(), final(s).locals())
     //@end
 }
+
+// no local is left declared-but-undefined: Parser::emit_scope_end (unit compiler) unwraps the depth of every local it
+// discards, so an undefined local left behind by a statement is a host panic at the end of the block
+pub open spec fn all_defined(l: Seq<Local>) -> bool { forall|i: int| 0 <= i < l.len() ==> (#[trigger] l[i]).depth is Some }
 
 // the locals from index n on are in scope at depth d (parameters of the function being compiled)
 pub open spec fn params_in_scope(l: Seq<Local>, n: int, d: usize) -> bool {
